@@ -38,7 +38,7 @@ def partitions(tier):
     for v in VERSIONS if not q else ["2.0"]:
         for cmd in (1, 3):
             parts.append({"name": "gateway-%s-cmd%d" % (v, cmd), "fn": "sym_gateway_roundtrip", "version": v, "cmd": cmd,
-                          "maxlen": 1 if q else 2, "tlo": 0, "thi": 9 if q else 99, "idhi": 99 if q else 255,
+                          "maxlen": 1 if q else 2, "tlo": 0, "thi": 9 if q else 99, "idlo": 10 if q else 0, "idhi": 99 if q else 255,
                           "budget": 400 if q else 2400, "cost": 4})
     return parts
 
@@ -66,7 +66,7 @@ def payload_ok(p):
 
 
 def _fields(inp, part):
-    n = inp.int("n", 0, part.get("idhi", 255))
+    n = inp.int("n", part.get("idlo", 0), part.get("idhi", 255))
     c = inp.int("c", 0, 255)
     ack = inp.int("ack", 0, 1)
     t = inp.int("t", part["tlo"], part["thi"])
